@@ -125,7 +125,7 @@ pub fn run_chunk(prop: &dyn Prop, cx_base: &Cx, a: &ChunkArgs) -> i32 {
         journal.set(index, 1);
         let mut x = index ^ cx_base.seed.rotate_left(13) ^ 0x5EED;
         let want = samples.len() < 4 && (index == a.from || splitmix64(&mut x) % sample_mod == 0);
-        let cx = Cx { tier: cx_base.tier, seed: cx_base.seed, render: want, strict: cx_base.strict, no_exclude: cx_base.no_exclude.clone() };
+        let cx = cx_base.with_render(want);
         let tc = Instant::now();
         let (mut r, used) = run_case(prop, space, index, &cx);
         let dt = tc.elapsed().as_secs_f64();
@@ -152,7 +152,7 @@ pub fn run_chunk(prop: &dyn Prop, cx_base: &Cx, a: &ChunkArgs) -> i32 {
                 if *c <= 3 && failures.len() < 40 {
                     if r.render.is_none() && !space.exhaustive {
                         // re-run with rendering for the report
-                        let cx2 = Cx { tier: cx.tier, seed: cx.seed, render: true, strict: cx.strict, no_exclude: cx.no_exclude.clone() };
+                        let cx2 = cx.with_render(true);
                         let (r2, _) = run_tape(prop, space.name, index, &used, &cx2);
                         if r2.render.is_some() {
                             r.render = r2.render;
@@ -161,7 +161,7 @@ pub fn run_chunk(prop: &dyn Prop, cx_base: &Cx, a: &ChunkArgs) -> i32 {
                             r.direct = r2.direct;
                         }
                     } else if r.render.is_none() {
-                        let cx2 = Cx { tier: cx.tier, seed: cx.seed, render: true, strict: cx.strict, no_exclude: cx.no_exclude.clone() };
+                        let cx2 = cx.with_render(true);
                         let (r2, _) = run_case(prop, space, index, &cx2);
                         r.render = r2.render;
                         if r.direct.is_none() {
@@ -223,7 +223,8 @@ pub fn run_replay(prop: &dyn Prop, rep: &Value, cx: &Cx, spill: Option<&str>) ->
             // exhaustive cases are addressed by index; `regenerate` re-derives a random case
             // from (seed, property, space, index) — used for cases that killed their worker
             let seed = rep.get("seed").and_then(|v| v.as_u64()).unwrap_or(cx.seed);
-            let cx2 = Cx { tier: cx.tier, seed, render: cx.render, strict: cx.strict, no_exclude: cx.no_exclude.clone() };
+            let mut cx2 = cx.with_render(cx.render);
+            cx2.seed = seed;
             return run_case_spill(prop, sp, index, &cx2, spill).0;
         }
     }
@@ -284,7 +285,7 @@ pub fn shrink_replay(prop: &dyn Prop, rep: &Value, cx: &Cx, budget: usize, isola
         out["tape"] = json!(best);
         out["shrink"] = json!({"candidates": st.candidates, "accepted": st.accepted, "mode": "tape"});
         if isolate.is_none() {
-            let cx2 = Cx { tier: cx.tier, seed: cx.seed, render: true, strict: cx.strict, no_exclude: cx.no_exclude.clone() };
+            let cx2 = cx.with_render(true);
             let (r, _) = run_tape(prop, &space, index, &best, &cx2);
             if let Status::Fail { msg, .. } = &r.status {
                 out["message"] = json!(msg);
@@ -326,7 +327,7 @@ pub fn shrink_replay(prop: &dyn Prop, rep: &Value, cx: &Cx, budget: usize, isola
         out["tape"] = json!([]);
         out["shrink"] = json!({"candidates": cands, "accepted": acc, "mode": "direct"});
         if isolate.is_none() {
-            let cx2 = Cx { tier: cx.tier, seed: cx.seed, render: true, strict: cx.strict, no_exclude: cx.no_exclude.clone() };
+            let cx2 = cx.with_render(true);
             if let Some(r) = run_direct(prop, &cur, &cx2) {
                 if let Status::Fail { msg, .. } = &r.status {
                     out["message"] = json!(msg);
